@@ -102,7 +102,7 @@ VARIANTS = {
 
 def sbeppc(variant="dbg"):
     """path of an sbeppc binary built from the current working tree"""
-    key = _hash_tree([SBEPPC_SRC, SBEPP_SRC], (variant + " ".join(VARIANTS[variant])).encode())
+    key = _hash_tree([SBEPPC_SRC, SBEPP_SRC], (variant + " ".join(VARIANTS[variant]) + ("+fmt-header-only" if variant == "san" else "")).encode())
     d = cache_dir("sbeppc-%s-%s" % (variant, key))
     exe = os.path.join(d, "sbeppc")
     if os.path.exists(exe):
@@ -114,10 +114,13 @@ def sbeppc(variant="dbg"):
         bi = os.path.join(d, "build_info.cpp")
         with open(bi, "w") as fh:
             fh.write(BUILD_INFO % _version())
-        cmd = VARIANTS[variant] + [
-            "-DFMT_SHARED", "-I" + SBEPPC_SRC, "-I" + SBEPP_SRC, "-isystem", CONDA + "/include",
-            os.path.join(SBEPPC_SRC, "sbepp", "sbeppc", "main.cpp"), bi,
-            "-Wl,-rpath," + CONDA + "/lib", CONDA + "/lib/libfmt.so",
+        # the sanitized variant compiles fmt header-only: a read of freed memory *inside* the formatter (a dangling
+        # string_view handed to fmt) is invisible when libfmt.so is not instrumented (found necessary by mutant c09d)
+        fmt_flags = ["-DFMT_HEADER_ONLY"] if variant == "san" else ["-DFMT_SHARED"]
+        fmt_libs = [] if variant == "san" else ["-Wl,-rpath," + CONDA + "/lib", CONDA + "/lib/libfmt.so"]
+        cmd = VARIANTS[variant] + fmt_flags + [
+            "-I" + SBEPPC_SRC, "-I" + SBEPP_SRC, "-isystem", CONDA + "/include",
+            os.path.join(SBEPPC_SRC, "sbepp", "sbeppc", "main.cpp"), bi] + fmt_libs + [
             "/usr/lib/x86_64-linux-gnu/libpugixml.so", "-o", exe + ".tmp"]
         r = subprocess.run(cmd, stdout=subprocess.PIPE, stderr=subprocess.STDOUT, text=True)
         if r.returncode != 0:
